@@ -2712,7 +2712,11 @@ def fixup_dilation_gt2(op: Operation, arch, nng) -> Operation:
             new_kernel_w = (kernel_w - 1) * scale_dilation_w + 1
 
             new_kernel_shape = [new_kernel_h, new_kernel_w, kernel_ic, kernel_oc]
-            new_kernel_values = np.zeros(new_kernel_shape, dtype=op.weights.values.dtype)
+            # the inserted taps must denote weight 0, i.e. the zero point of the weights (per-axis zero points of
+            # int8 weights are 0)
+            zero_point = op.weights.quantization.zero_point
+            tap_value = zero_point if np.isscalar(zero_point) else 0
+            new_kernel_values = np.full(new_kernel_shape, tap_value, dtype=op.weights.values.dtype)
 
             # copy the original kernel values into the new sparse kernel
             for h in range(0, kernel_h):
